@@ -104,11 +104,11 @@ func RunC13(ch *core.Chooser, env *Env) *Outcome {
 		return f, ""
 	}
 
-	opKinds := []int{workload.OpDNS, workload.OpDNS, workload.OpDNS, workload.OpDNS, workload.OpWeb, workload.OpWeb, workload.OpMatchAll, workload.OpMatchAll, workload.OpMatch, workload.OpCosmetic}
+	opKinds := []int{workload.OpDNS, workload.OpDNS, workload.OpDNS, workload.OpDNS, workload.OpWeb, workload.OpWeb, workload.OpWeb, workload.OpMatchAll, workload.OpMatchAll, workload.OpMatch, workload.OpCosmetic, workload.OpCosmetic}
 	var table []workload.Op // every request of the history
 	var hist []string       // rendered history (samples / replay)
 	var ring []*retained
-	lastDNS := -1
+	lastDNS, lastWeb, lastCos := -1, -1, -1
 	cachePrev := map[int64]string{}
 	queries, repeats, oneField, derivedOnOld, flushes, nonEmpty := 0, 0, 0, 0, 0, 0
 	flushedSinceDNS := false
@@ -188,9 +188,18 @@ func RunC13(ch *core.Chooser, env *Env) *Outcome {
 			}
 		default: // a query
 			var o workload.Op
-			switch q := ch.Intn("hist.q", 10); {
+			switch q := ch.Intn("hist.q", 12); {
 			case q <= 2 && lastDNS >= 0:
 				o = workload.MutateOneField(ch, table[lastDNS])
+				oneField++
+			case q == 10 && lastWeb >= 0:
+				// a neighbour sub-request of the same site
+				o = workload.MutateWebOp(ch, table[lastWeb])
+				oneField++
+			case q == 11 && lastCos >= 0:
+				// the same cosmetic question for another host
+				o = table[lastCos]
+				o.Host = hosts[ch.Intn("q.host", len(hosts))]
 				oneField++
 			case q <= 4 && len(table) > 0:
 				o = table[ch.Intn("hist.repeat", len(table))]
@@ -200,9 +209,14 @@ func RunC13(ch *core.Chooser, env *Env) *Outcome {
 			}
 			table = append(table, o)
 			oi := len(table) - 1
-			if o.Kind == workload.OpDNS {
+			switch {
+			case o.Kind == workload.OpDNS:
 				lastDNS = oi
 				flushedSinceDNS = false
+			case o.Kind == workload.OpCosmetic:
+				lastCos = oi
+			case !o.HostnameReq:
+				lastWeb = oi
 			}
 			f, perr := freshOf(&o)
 			if perr != "" {
